@@ -8,6 +8,7 @@ import (
 	"path/filepath"
 	"regexp"
 	"strings"
+	"sync"
 	"syscall"
 
 	"github.com/mimecast/dtail/internal/config"
@@ -37,6 +38,7 @@ type c08Case struct {
 type c08Answer struct {
 	Request    string `json:"request"`
 	Got        bool   `json:"got"`
+	GotConc    bool   `json:"got_conc"` // verdict when all requests of a session are checked at once
 	Resolved   string `json:"resolved"`
 	ResolveErr bool   `json:"resolve_err"`
 	Regular    bool   `json:"regular"`
@@ -167,6 +169,21 @@ func c08Child(args []string) int {
 				}
 			}
 			res.Answers = append(res.Answers, a)
+		}
+		// A glob request checks all its files at once, each in its own
+		// goroutine on the session's user object: repeat the verdicts that way
+		// on a fresh user (fresh session).
+		u2, err := user.New(c.UserName, "127.0.0.1:5556")
+		if err == nil {
+			var wg sync.WaitGroup
+			for k := range res.Answers {
+				wg.Add(1)
+				go func(k int) {
+					defer wg.Done()
+					res.Answers[k].GotConc = u2.HasFilePermission(res.Answers[k].Request, "readfiles")
+				}(k)
+			}
+			wg.Wait()
 		}
 		return res
 	})
@@ -367,6 +384,10 @@ func c08(r *vlib.Run) int {
 			}
 			if a.Request != a.Resolved && !a.ResolveErr {
 				r.Count("requests_via_link_or_relative", 1)
+			}
+			if a.GotConc != want && a.Got == want {
+				r.Violation("verdict-differs-when-files-are-checked-concurrently", map[string]interface{}{"request": a.Request, "resolved": a.Resolved,
+					"rules": sub, "user": c.UserName, "got_concurrent": a.GotConc, "got_alone": a.Got, "want": want})
 			}
 			if a.Got != want {
 				r.Violation("verdict-mismatch", map[string]interface{}{"request": a.Request, "resolved": a.Resolved, "regular": a.Regular,
